@@ -18,6 +18,7 @@ import jax
 import jax.numpy as jnp
 
 from harness import core
+from harness.workers.fd_common import in_code_under_test as _icut
 from harness.workers import fd_common as fc
 
 _cache = {}
@@ -204,6 +205,8 @@ def handle(job):
     except core.MachineryError:
       raise
     except Exception as e:     # the code under test raised: data, not a crash
+      if not _icut(e):
+        raise
       out.append({"bad": [[-1, "exception", f"{type(e).__name__}: {e}"]], "worst": {},
                   "tb": traceback.format_exc()[-1500:], "kind": core.classify_exception(e)})
   return {"results": out}
